@@ -160,6 +160,11 @@ func (o *Overlay) TransmitMsg(onetMsg *ProtocolMsg, io MessageProxy) error {
 	o.instancesLock.Lock()
 	pi, ok := o.protocolInstances[onetMsg.To.ID()]
 	done := o.instancesInfo[onetMsg.To.ID()]
+	if done {
+		// the lookup above cancelled a pending removal of the tree: schedule
+		// it again if no instance uses the tree, or it would stay for ever
+		o.cleanTreeStorage(onetMsg.To)
+	}
 	o.instancesLock.Unlock()
 	if done {
 		log.Lvl5("Message for TreeNodeInstance that is already finished")
